@@ -93,6 +93,7 @@ type Event struct {
 	Seq       int
 	Kind      string // encrypt, decrypt, open, close, restart, advance, revoke, rotate, pressure
 	Proc      *Proc
+	Gen       int // generation (restart count) of Proc when the operation ran
 	Sess      *Sess
 	Partition string
 	At        int64 // virtual unix nanos (the clock does not move inside an operation)
@@ -343,7 +344,10 @@ func New(t *rapid.T, opt Options) *World {
 }
 
 func (w *World) startProc(p *Proc) {
-	cfg := &appencryption.Config{Service: w.Service, Product: w.Product, Policy: p.Policy}
+	// the SDK gets its own copy of the policy: the oracle judges by the configuration that was
+	// supplied, not by whatever the SDK may have turned it into
+	given := *p.Policy
+	cfg := &appencryption.Config{Service: w.Service, Product: w.Product, Policy: &given}
 	p.Factory = appencryption.NewSessionFactory(cfg, w.Store.For(p.Name), w.KMS.For(p.Name), w.AEAD, appencryption.WithSecretFactory(securememory.SecretFactory(w.Secrets)))
 	p.Closed = false
 	p.StartedAt = w.Now()
@@ -375,12 +379,12 @@ func (w *World) closeProc(p *Proc) {
 	}
 	for _, s := range p.Sessions {
 		if !s.Closed {
-			s.S.Close()
+			w.guard(fmt.Sprintf("Session.Close on %s / %q", p.Name, s.Partition), func() { s.S.Close() })
 			s.Closed = true
 		}
 	}
 	p.Sessions = nil
-	p.Factory.Close()
+	w.guard("SessionFactory.Close on "+p.Name, func() { p.Factory.Close() })
 	p.Closed = true
 }
 
@@ -396,6 +400,9 @@ func (w *World) begin(kind string, p *Proc, s *Sess, part string) *Event {
 	ev := &Event{Seq: len(w.Events), Kind: kind, Proc: p, Sess: s, Partition: part, At: w.Now(),
 		CallFrom: w.Log.Len(), AEADFrom: w.AEAD.Len(), SecretFrom: w.Secrets.Count(), LiveBefore: w.Secrets.LiveCount()}
 	w.Secrets.SetTag(fmt.Sprintf("op%d:%s", ev.Seq, kind))
+	if p != nil {
+		ev.Gen = p.Gen
+	}
 	return ev
 }
 
@@ -421,7 +428,9 @@ func (w *World) PickPart(label string) string {
 // Open opens a session (an operation of its own).
 func (w *World) Open(p *Proc, part string) *Sess {
 	ev := w.begin("open", p, nil, part)
-	s, err := p.Factory.GetSession(part)
+	var s *appencryption.Session
+	var err error
+	w.guard(fmt.Sprintf("GetSession(%q) on %s", part, p.Name), func() { s, err = p.Factory.GetSession(part) })
 	ev.Err = err
 	var se *Sess
 	if err == nil {
@@ -443,7 +452,7 @@ func (w *World) CloseSess(s *Sess) {
 		return
 	}
 	ev := w.begin("close", s.Proc, s, s.Partition)
-	ev.Err = s.S.Close()
+	w.guard(fmt.Sprintf("Session.Close on %s / %q", s.Proc.Name, s.Partition), func() { ev.Err = s.S.Close() })
 	s.Closed = true
 	p := s.Proc
 	for i, x := range p.Sessions {
@@ -573,6 +582,29 @@ func DRREqual(a, b appencryption.DataRowRecord) bool {
 
 // ---- operations --------------------------------------------------------------------------
 
+// HangAfter is the real time an SDK call may take before it is reported as blocked forever
+// (the clock the SDK sees is virtual; a call normally takes microseconds).
+var HangAfter = 40 * time.Second
+
+// guard runs one SDK call under a watchdog: a call that never returns (a lock left held, a
+// wait that is never signalled) is a violation of every property that says "the operation
+// succeeds / returns an error", and must not be mistaken for a slow test.
+func (w *World) guard(what string, f func()) {
+	done := make(chan any, 1)
+	go func() {
+		defer func() { done <- recover() }()
+		f()
+	}()
+	select {
+	case p := <-done:
+		if p != nil {
+			panic(p)
+		}
+	case <-time.After(HangAfter):
+		kit.Abort(fmt.Sprintf("%s violated: %s did not return within %s of real time (blocked forever: a lock left held or a wait never signalled)\n%s", kit.Rec.Property, what, HangAfter, w.Describe()))
+	}
+}
+
 // Encrypt performs one encrypt (or store) through session s and pools the record.
 func (w *World) Encrypt(s *Sess, payload []byte, viaStore bool, fresh bool) (*Event, *Rec) {
 	ev := w.begin("encrypt", s.Proc, s, s.Partition)
@@ -582,13 +614,13 @@ func (w *World) Encrypt(s *Sess, payload []byte, viaStore bool, fresh bool) (*Ev
 	var err error
 	if viaStore {
 		var key interface{}
-		key, err = s.S.Store(w.newOpCtx(), payload, kvStore{w})
+		w.guard(fmt.Sprintf("Session.Store on %s / %q", s.Proc.Name, s.Partition), func() { key, err = s.S.Store(w.newOpCtx(), payload, kvStore{w}) })
 		if err == nil {
 			d := w.kv[key.(int)]
 			drr = &d
 		}
 	} else {
-		drr, err = s.S.Encrypt(w.newOpCtx(), payload)
+		w.guard(fmt.Sprintf("Session.Encrypt on %s / %q", s.Proc.Name, s.Partition), func() { drr, err = s.S.Encrypt(w.newOpCtx(), payload) })
 	}
 	ev.Err = err
 	s.Ops++
@@ -623,9 +655,9 @@ func (w *World) Decrypt(s *Sess, rec *Rec, viaLoad bool, fresh bool) (*Event, []
 	if viaLoad {
 		w.kvSeq++
 		w.kv[w.kvSeq] = arg
-		out, err = s.S.Load(w.newOpCtx(), w.kvSeq, kvStore{w})
+		w.guard(fmt.Sprintf("Session.Load on %s / %q", s.Proc.Name, s.Partition), func() { out, err = s.S.Load(w.newOpCtx(), w.kvSeq, kvStore{w}) })
 	} else {
-		out, err = s.S.Decrypt(w.newOpCtx(), arg)
+		w.guard(fmt.Sprintf("Session.Decrypt on %s / %q", s.Proc.Name, s.Partition), func() { out, err = s.S.Decrypt(w.newOpCtx(), arg) })
 	}
 	s.Ops++
 	ev.Err = err
